@@ -120,6 +120,12 @@ def corpus(v, lvl):
     for e, tag in ((const, 'libconst'), (held, 'held')):
         add('parse_segment-' + tag, lambda e=e: (lambda s_: (s_.to_er7(e), deep_ec(s_, e)))(parse_segment('PID|1||I^^^A&U~J||F^G', version=v, encoding_chars=e, validation_level=lvl)))
         add('Message-' + tag, lambda e=e: (lambda m: (m.to_er7(), m.to_er7(e)))(build_message(e)))
+    # more components / subcomponents than the datatype has (the parsers fall back to unnamed elements under TOLERANT)
+    many = 'I^^^A&U^c5^c6^c7^c8^c9^c10^c11^c12^c13^c14'
+    add('parse_field-excess-components', lambda: (lambda f: (f.to_er7(ec), deep_ec(f, ec)))(parse_field(many, name='PID_3', version=v, encoding_chars=ec, validation_level=lvl)))
+    add('parse_segment-excess-components', lambda: (lambda s_: (s_.to_er7(ec), deep_ec(s_, ec)))(parse_segment('PID|1||' + many + '||F^G&h&i&j&k&l', version=v, encoding_chars=ec, validation_level=lvl)))
+    add('parse_component-excess-subcomponents', lambda: parse_component('A&U&x&y&z&w', name='CX_4' if 'CX' in libs()[v].DATATYPES_STRUCTS else None, datatype=None, version=v, encoding_chars=ec, validation_level=lvl).to_er7(ec))
+    add('parse_message-excess-components', lambda: (lambda m: (m.to_er7(), deep(m)))(parse_message(text.replace('I^^^AA', many), validation_level=lvl)))
     # an explicit version that is not supported is refused whatever the default version is
     for bad in ('2.9', ' ' + v, 'v' + v, ''):
         add('parse_segment-unsupported-version-%r' % bad, lambda bad=bad: (lambda x: (x.version, x.to_er7(ec)))(parse_segment('PID|1', version=bad, encoding_chars=ec, validation_level=lvl)))
